@@ -139,7 +139,7 @@ func (dsp *DataStreamProcessor) ConfigureTrigger(state TriggerState) error {
 		return fmt.Errorf("dsp.EMTState in invalid")
 	}
 	dsp.TriggerState = state
-	dsp.LastTrigger = 0 // forget the Last Trigger, so that all channels will auto trigger
+	dsp.LastTrigger = math.MinInt64 / 4 // forget the Last Trigger, so that all channels will auto trigger
 	// at the same starting point when you send new trigger settings
 	dsp.EMTState.reset()
 	return nil
